@@ -1156,10 +1156,28 @@ fn check_fault_run(
     if poisoned {
         stats.inc("poisoned_after_run");
     }
-    // (3) reopen: every acknowledged write in commit order, failed writes all-or-nothing
     let seqno_of = |w: &WriteRec| -> Option<u64> {
         log.iter().find(|(step, tid, site, _)| *tid == w.thread && site.ends_with("_seqno") && w.steps.0 <= *step && *step <= w.steps.1).map(|x| x.3)
     };
+    // (2') the same in commit order, for writers that were already inside their call when the
+    // failure happened: a write that drew its sequence number after the failed write drew its own
+    // entered the journal critical section after the failure and must have been refused
+    if let Some((fs, f)) = failed.iter().filter_map(|f| seqno_of(f).map(|s| (s, f))).min_by_key(|x| x.0) {
+        for a in acked {
+            if let Some(sa) = seqno_of(a) {
+                if sa > fs {
+                    return Some(Violation::new(
+                        "write-acknowledged-after-failure",
+                        format!(
+                            "{} (seqno {sa}) was acknowledged although it entered the journal after {} (seqno {fs}) had failed with {:?} (injected {fault_desc}); both calls overlapped in time",
+                            a.label, f.label, f.error
+                        ),
+                    ));
+                }
+            }
+        }
+    }
+    // (3) reopen: every acknowledged write in commit order, failed writes all-or-nothing
     let mut ordered: Vec<(u64, &WriteRec, bool)> = vec![];
     for a in acked {
         if matches!(a.op, LOp::All(_)) {
